@@ -25,11 +25,21 @@ func init() {
 				pool = macroKeysVi
 			}
 			n := 1 + r.Intn(6)
+			base := Spec{Prompt: "> ", Mode: "emacs", Runs: 1, Inject: []Inject{{Seq: `\C-x\C-y0`, Line: buf, Pos: pos}}}
+			// one case in four: numeric arguments among the keys (to commands that use them and to commands that do not);
+			// one in four: the application accepts multi-line input (only lines ending with ";" are complete) and RET,
+			// which then continues the line, is one of the keys
+			if !vi && r.Intn(4) == 0 {
+				pool = append(append([]string{}, pool...), "\x1b2", "\x1b3", "\x1b-", "\x1b2", "\x1b2\x01", "\x1b3\x06")
+			}
+			if !vi && r.Intn(4) == 0 {
+				base.Multi = ";"
+				pool = append(append([]string{}, pool...), "\r", "\r")
+			}
 			var K []string
 			for i := 0; i < n; i++ {
 				K = append(K, pool[r.Intn(len(pool))])
 			}
-			base := Spec{Prompt: "> ", Mode: "emacs", Runs: 1, Inject: []Inject{{Seq: `\C-x\C-y0`, Line: buf, Pos: pos}}}
 			if r.Intn(3) == 0 {
 				// the usual UTF-8 settings: non-ASCII keys of K are then real keys of the script
 				base.Inputrc = "set convert-meta off\nset input-meta on\nset output-meta on\n"
